@@ -3,7 +3,6 @@ package main
 import (
 	"fmt"
 	"os"
-	"os/exec"
 	"path/filepath"
 	"regexp"
 	"sort"
@@ -118,13 +117,26 @@ func (r *runner) racePass(results []*targetResult) {
 
 var reFuzzFunc = regexp.MustCompile(`(?m)^func (Fuzz[A-Za-z0-9_]+)\(`)
 
+// repoStatus lists the fuzz corpus files (testdata/fuzz/**) under the
+// repository: the only place `go test -fuzz` writes to. Compared before and
+// after the run; other changes of the tree (commits made by its owner while
+// the check runs) are not this check's business.
 func repoStatus(repo string) string {
-	cmd := exec.Command("git", "-C", repo, "status", "--porcelain", "--untracked-files=all")
-	out, err := cmd.Output()
-	if err != nil {
-		return "n/a"
-	}
-	return string(out)
+	var files []string
+	_ = filepath.Walk(repo, func(p string, info os.FileInfo, err error) error {
+		if err != nil {
+			return nil
+		}
+		if info.IsDir() && info.Name() == ".git" {
+			return filepath.SkipDir
+		}
+		if !info.IsDir() && strings.Contains(p, "/testdata/fuzz/") {
+			files = append(files, fmt.Sprintf("%s %d", p, info.Size()))
+		}
+		return nil
+	})
+	sort.Strings(files)
+	return strings.Join(files, "\n")
 }
 
 func (r *runner) repoTargets() {
@@ -239,7 +251,7 @@ func (r *runner) repoTargets() {
 	c.Floor("repository's own fuzz targets run", c.SeenCount("repo_own_targets"), 40)
 	c.Floor("repository's own fuzz targets: executions", c.Counter("repo_own_execs"), 40*budget)
 	if after := repoStatus(r.repo); after != before {
-		c.Broken("the working tree of %s changed during the run (before/after `git status --porcelain` differ):\n%s", r.repo, after)
+		c.Broken("fuzz corpus files under %s changed during the run (something wrote into testdata/fuzz): before=%q after=%q", r.repo, before, after)
 	} else {
 		c.Extra("repo_tree_untouched", true)
 	}
